@@ -302,6 +302,16 @@ def check_phase(desc, rec, rng, nperm=4):
         with case_alarm(20):
             dag = make_dag(desc)
             tree = create_ast_from_phase(dag, "main")
+            if len(desc["stmts"]) % 2:
+                # the same description object is lowered AGAIN (a second generator, a generator after the
+                # interpreter, ...): what is judged below is the second result, which must also equal the first
+                first = show(tree)
+                tree = create_ast_from_phase(dag, "main")
+                rec.count("phases_lowered_twice")
+                if show(tree) != first:
+                    rec.violation("second-lowering-of-the-same-description-differs",
+                                  f"first: {first}\nsecond: {show(tree)}", desc)
+                    return None
     except CaseTimeout:
         rec.violation("lowering-hang", "create_ast_from_phase did not return", desc)
         return None
